@@ -363,6 +363,9 @@ class Tokenizer:
                     # other case citation. See #221 and #174
                     citation_tokens.pop(-1)
                     all_tokens.pop(-1)
+                    # rewind so the text between the start of the dropped
+                    # token and this one is emitted as plain text
+                    offset = last_token.start
                 else:
                     # skip overlaps
                     continue
